@@ -215,7 +215,10 @@ def export_irmap(ctx):
             '— do not edit; regenerated on every check run *)\n'
             'From PV Require Import Lib.Py Spec.WasmNumSpec Model.WasmIr.\nOpen Scope Z_scope.\n\n'
             + '\n'.join(defs) + '\n\n'
-            'Definition table : list (wop * irprog) := [\n' + ';\n'.join(rows) + '\n].\n')
+            'Definition table : list (wop * irprog) := [\n' + ';\n'.join(rows) + '\n].\n'
+            + '\n(* the specification as a [result] (None = trap), for the oracle cross-check of the check module *)\n'
+            'Definition spec_run (o : wop) (args : list Z) : result Z :=\n'
+            '  match wop_sem_signed o args with Some r => Ok r | None => Internal ZeroDiv end.\n')
     ctx.write_gen('wasm_irmap', text)
     ctx.cov['stages']['gen_wasm_irmap'] = {'opcodes': len(rows)}
     return table
@@ -419,10 +422,12 @@ def end_to_end_cases(ctx, inst, per_op):
             out = OkV(got[1]) if got[0] == 'ok' else Internal     # WasmTrapException <- ZeroDivisionError
             model_cases.append(('py_run FUEL p_%s %s' % (fname(op)[2:], zlist(args)), out))
             exp = X.oracle(op, list(args))
-            spec_cases.append(('wop_sem_signed (%s) %s' % (cterm, zlist(args)), None if exp == 'trap' else exp))
+            spec_cases.append(('spec_run (%s) %s' % (cterm, zlist(args)), Internal if exp == 'trap' else OkV(exp)))
             recs.append((op, args, got))
     return model_cases, spec_cases, recs
 
+
+CASE_TIMEOUT = 150
 
 KNOWN_OVERFLOW = [('i32.div_s', [-2 ** 31, -1], ['i32', 'i32'], 'i32'), ('i64.div_s', [-2 ** 63, -1], ['i64', 'i64'], 'i64')]
 
@@ -442,24 +447,27 @@ def run(ctx):
     # ---- correspondence
     if ctx.build(['Gen/wasm_runtime.vo', 'Gen/irpy_rt.vo', 'Gen/wasm_irmap.vo', 'Model/WasmIr.vo', 'Lib/Val.vo'])[0]:
         cases, recs = helper_cases(ctx, rt_infos)
-        bad = ctx.run_cases('rt_helpers', ['Gen.wasm_runtime'], cases)
+        # short timeouts: a model that lost a shift-count mask makes Z.shiftl/Z.shiftr iterate 2^63 times
+        bad = ctx.run_cases('rt_helpers', ['Gen.wasm_runtime'], cases, timeout=CASE_TIMEOUT)
         if bad:
             ctx.failed_stages.append(('correspondence', 'Gen.wasm_runtime disagrees with runtime.py on %d cases, first: %s%r'
                                       % (len(bad), recs[bad[0]][0], recs[bad[0]][1])))
         cases2, recs2 = irpy_cases(ctx)
-        bad = ctx.run_cases('irpy_rt', ['Gen.irpy_rt'], cases2)
+        bad = ctx.run_cases('irpy_rt', ['Gen.irpy_rt'], cases2, timeout=CASE_TIMEOUT)
         if bad:
             ctx.failed_stages.append(('correspondence', 'Gen.irpy_rt disagrees with the IrPy runtime on %d cases, first: %s%r'
                                       % (len(bad), recs2[bad[0]][0], recs2[bad[0]][1])))
         ctx.cov['stages']['correspondence_T'] = {'runtime_helpers': len(cases), 'irpy_runtime': len(cases2)}
         if inst is not None:
-            per_op = 40 if ctx.quick() else 120
+            per_op = 30 if ctx.quick() else 120
             mc, sc, recs3 = end_to_end_cases(ctx, inst, per_op)
-            bad = ctx.run_cases('py_run', ['Spec.WasmNumSpec', 'Model.WasmIr', 'Gen.wasm_irmap'], mc)
+            bad = ctx.run_cases('py_run', ['Spec.WasmNumSpec', 'Model.WasmIr', 'Gen.wasm_irmap'], mc,
+                                timeout=CASE_TIMEOUT)
             if bad:
                 ctx.failed_stages.append(('correspondence', 'Model.py_run over the exported IR disagrees with the python '
                                           'target on %d cases, first: %s%r' % (len(bad), recs3[bad[0]][0], recs3[bad[0]][1])))
-            bad = ctx.run_cases('spec_oracle', ['Spec.WasmNumSpec'], sc)
+            bad = ctx.run_cases('spec_oracle', ['Spec.WasmNumSpec', 'Model.WasmIr', 'Gen.wasm_irmap'], sc,
+                                timeout=CASE_TIMEOUT)
             if bad:
                 ctx.failed_stages.append(('oracle', 'the Python search oracle disagrees with Spec/WasmNumSpec.v on %d '
                                           'cases, first: %s%r' % (len(bad), recs3[bad[0]][0], recs3[bad[0]][1])))
